@@ -227,6 +227,8 @@ class Evaluator:
         for p, a in zip(b["params"], args):
             if p.get("k") == "pbind":
                 env[p["name"]] = a
+            elif not self.bind(p, a, env):          # a pattern in parameter position (`fn from((r, g, b): (u8, u8, u8))`)
+                raise Unrecognised(f"argument does not match the parameter pattern of {path}")
         try:
             r = self.ev(b["hir"], env)
         except Return as rt:
